@@ -172,7 +172,7 @@ PROPS = {
     "C01": {
         "module": "ShapeVerif.Props.C01",
         "extra_modules": ["ShapeVerif.Props.TextLevel"],
-        "theorems": ["ShapeVerif.sources_sound", "ShapeVerif.one_more", "ShapeVerif.many_more", "ShapeVerif.merger_never_evicts",
+        "theorems": ["ShapeVerif.sources_sound", "ShapeVerif.one_more", "ShapeVerif.many_more", "ShapeVerif.many_more_text", "ShapeVerif.merger_never_evicts",
                      "ShapeVerif.infer_sound_C01", "ShapeVerif.d3_counterexample",
                      "ShapeVerif.merger_wf", "ShapeVerif.infer_wf", "ShapeVerif.sources_sound_text", "ShapeVerif.fromSources_reads"],
         "statements": {
@@ -281,7 +281,7 @@ PROPS = {
         "module": "ShapeVerif.Props.C08",
         "theorems": ["ShapeVerif.merger_idem", "ShapeVerif.merge_null_right", "ShapeVerif.merge_null_left",
                      "ShapeVerif.merger_comm_sem", "ShapeVerif.object_struct", "ShapeVerif.array_struct",
-                     "ShapeVerif.scalar_struct", "ShapeVerif.sources_idem", "ShapeVerif.sources_null",
+                     "ShapeVerif.scalar_struct", "ShapeVerif.sources_idem", "ShapeVerif.sources_idem_k", "ShapeVerif.sources_null",
                      "ShapeVerif.sources_comm", "ShapeVerif.sources_idem_text", "ShapeVerif.sources_null_text",
                      "ShapeVerif.sources_comm_text"],
         "extra_modules": ["ShapeVerif.Props.TextLevel"],
